@@ -36,6 +36,8 @@ def run(ck):
     ck.rule("C14.R9", "numbers the JSON visitors do not handle themselves (128-bit) reach record_debug with every digit: Visit's provided methods pass the value on unchanged (as C10.R4)", floor=8)
     ck.rule("C14.R10", "a value is rendered the same way whether it is an event field or a span field: the event-side visitors (tracing-serde) override no record_* method that the span-side JsonVisitor leaves to Visit's provided default", floor=2)
     ck.rule("C14.R11", "a span's stored JSON fields are its own: a recycled registry slot never carries the previous span's extensions over (Clear empties them on every path, as C05.R1)", floor=1)
+    ck.rule("C14.R14", "every object / list of a record is opened so that its closing bracket is written once, at the end: where entries are written conditionally or by a "
+            "visitor the serializer is given no length (a wrong one, `Some(0)` in particular, makes serde_json close the object at once)", floor=3)
     ck.rule("C14.R13", "an event's fields become an object with unique keys: the event-side visitor, like the span-side one, collects by key before it serialises "
             "(the macros accept the same field name twice, and both values reach the formatter)", floor=1)
     ck.rule("C14.R12", "what a layer stored for a span is what it reads back: the per-span type map files, finds and removes a value under the "
@@ -62,6 +64,36 @@ def run(ck):
     _C05.clear_resets_slot(ck, F, "C14.R11")
     extensions_typemap(ck, F, "C14.R12")
     event_keys_unique(ck, F)
+    length_hints(ck, F)
+
+
+def length_hints(ck, F, rid="C14.R14"):
+    """serde_json ignores a non-zero length hint, but for `Some(0)` it writes `{}` / `[]` immediately and appends every later
+    entry after the closing bracket. The formatter's objects have option-dependent and visitor-written entries: their
+    number is not known when the object is opened."""
+    n = 0
+    for b in F.body_list:
+        if "fmt/format/json.rs" not in b.span:
+            continue
+        opens = [(bb, t) for bb, t in b.calls() if t["callee"].get("method") in ("serialize_map", "serialize_seq")]
+        if not opens:
+            continue
+        entries = [bb for bb, t in b.calls() if t["callee"].get("method") in ("serialize_entry", "serialize_element", "serialize_key", "serialize_value")]
+        dynamic = any(not b.postdominates(e, opens[0][0]) for e in entries) or \
+            any(t["callee"].get("method") in ("record", "try_for_each", "for_each") or str(t["callee"].get("path", "")).endswith("SerdeMapVisitor::<S>::new") for bb, t in b.calls()) or \
+            any(b.reachable(s_).__contains__(e) for e in entries for s_ in b.succ(e, False))
+        for bb, t in opens:
+            n += 1
+            o = b.origin(t["argv"][-1])
+            none = o[0] == "agg" and o[1].get("agg", {}).get("variant") == "None"
+            key = "%s opens its %s with no length" % ("::".join(b.path.split("::{closure")[0].replace(">", "").split("::")[-2:])[-60:], "object" if t["callee"]["method"] == "serialize_map" else "list")
+            if none or not dynamic:
+                ck.ok(rid, key, fn=b.path)
+            else:
+                ck.bad(rid, key, where(t["sp"]), "the %s is opened with a length hint although its entries are written conditionally / by a visitor: when the hint is 0 (every "
+                       "optional entry switched off) serde_json emits `{}` at once and the record becomes `{},\"message\":...}`" % ("object" if t["callee"]["method"] == "serialize_map" else "list"), fn=b.path)
+    if not n:
+        ck.bad(rid, "objects and lists opened by the JSON formatter", J, "none found")
 
 
 def event_keys_unique(ck, F, rid="C14.R13"):
@@ -297,10 +329,10 @@ def visitor_map_field(F):
     return None, ", ".join("%s: %s" % (f["name"], f["ty"][:40]) for f in adt["variants"][0]["fields"])
 
 
-def r2(ck, F):
+def r2(ck, F, rid="C14.R2"):
     VALUES = visitor_map_field(F)[0] or "values"
     b = F.impl_method("tracing_subscriber::fmt::format::FormatFields", J + "JsonFields", "add_fields")
-    if not ck.anchor("C14.R2", "JsonFields::add_fields", b):
+    if not ck.anchor(rid, "JsonFields::add_fields", b):
         return
     parse = [(bb, t) for bb, t in b.calls() if t["callee"].get("path", "").startswith("serde_json::de::from_str")]
     recs = [(bb, t) for bb, t in b.calls() if t["callee"].get("method") == "record" and "Record" in t["callee"].get("path", "")]
@@ -327,9 +359,9 @@ def r2(ck, F):
             if not (b.dominates(pbb, ai) and b.dominates(ai, merge_recs[0][0])):
                 ok, why = False, "the visitor is not seeded with the previously recorded fields before the new ones are recorded"
     if ok:
-        ck.ok("C14.R2", "add_fields: stored object parsed and moved into the visitor before recording", fn=b.path)
+        ck.ok(rid, "add_fields: stored object parsed and moved into the visitor before recording", fn=b.path)
     else:
-        ck.bad("C14.R2", "add_fields: stored object parsed and moved into the visitor before recording", where(b.raw["sp"]), why, fn=b.path)
+        ck.bad(rid, "add_fields: stored object parsed and moved into the visitor before recording", where(b.raw["sp"]), why, fn=b.path)
     # current.fields replaced only after finish() succeeded
     repl = [(i, j, s) for i, j, s in b.stmts() if s["k"] == "assign" and not b.blocks[i].get("cleanup")
             and any(isinstance(x, dict) and x.get("n") == "fields" and "FormattedFields" in x.get("adt", "") for x in s["lhs"].get("p", []))]
@@ -338,9 +370,9 @@ def r2(ck, F):
         g, _ = guards_of(b, repl[0][0])
         ok = any(t.startswith("discr(branch(finish(") and v == 0 for t, v in g)
     if ok:
-        ck.ok("C14.R2", "add_fields: the stored string is replaced only when re-serialisation succeeded", fn=b.path)
+        ck.ok(rid, "add_fields: the stored string is replaced only when re-serialisation succeeded", fn=b.path)
     else:
-        ck.bad("C14.R2", "add_fields: the stored string is replaced only when re-serialisation succeeded", where(b.raw["sp"]),
+        ck.bad(rid, "add_fields: the stored string is replaced only when re-serialisation succeeded", where(b.raw["sp"]),
                "`current.fields = new` is not control-dependent on finish() returning Ok: a failed merge would lose or corrupt earlier fields", fn=b.path)
     # every re-parse of stored span fields uses owned keys: a field name that needs escaping cannot be deserialized into a
     # borrowed &str, so the parse (and with it the merge, or the span's fields in the output) would fail for such names
@@ -357,21 +389,21 @@ def r2(ck, F):
             key = "%s: stored fields are re-parsed into a type with owned keys" % x.path[-60:]
             import re as _re
             if _re.search(r"Map<&('[a-z_]+ )?str\b", target):
-                ck.bad("C14.R2", key, where(t["sp"]), "serde_json::from_str::<%s>: borrowed &str keys cannot hold a field name that needs JSON escaping; the parse fails and "
+                ck.bad(rid, key, where(t["sp"]), "serde_json::from_str::<%s>: borrowed &str keys cannot hold a field name that needs JSON escaping; the parse fails and "
                        "the fields recorded so far (or later) are lost" % target[:120], fn=x.path)
             else:
-                ck.ok("C14.R2", key, fn=x.path, detail=target[:100])
+                ck.ok(rid, key, fn=x.path, detail=target[:100])
     if nre < 2:
-        ck.bad("C14.R2", "re-parse sites of stored span fields", J, "found %d serde_json::from_str sites in the JSON formatter (expected add_fields and SerializableSpan)" % nre)
+        ck.bad(rid, "re-parse sites of stored span fields", J, "found %d serde_json::from_str sites in the JSON formatter (expected add_fields and SerializableSpan)" % nre)
     adt = F.adts.get(J + "JsonVisitor")
-    if ck.anchor("C14.R2", "JsonVisitor", adt):
+    if ck.anchor(rid, "JsonVisitor", adt):
         nm, ty = visitor_map_field(F)
         if nm:
-            ck.ok("C14.R2", "JsonVisitor collects fields in a map (unique keys)", detail="%s: %s" % (nm, ty[:80]))
+            ck.ok(rid, "JsonVisitor collects fields in a map (unique keys)", detail="%s: %s" % (nm, ty[:80]))
         else:
-            ck.bad("C14.R2", "JsonVisitor collects fields in a map (unique keys)", adt["span"], "no single map-typed field (%s)" % ty)
+            ck.bad(rid, "JsonVisitor collects fields in a map (unique keys)", adt["span"], "no single map-typed field (%s)" % ty)
     ss = F.impl_method("serde_core::ser::Serialize", J + "SerializableSpan<", "serialize") or F.impl_method("serde::ser::Serialize", J + "SerializableSpan<", "serialize")
-    if ck.anchor("C14.R2", "SerializableSpan::serialize", ss):
+    if ck.anchor(rid, "SerializableSpan::serialize", ss):
         names = [t["callee"].get("method") for bb, t in ss.calls()]
         has_parse = any(t["callee"].get("path", "").startswith("serde_json::de::from_str") for bb, t in ss.calls())
         ent = [bb for bb, t in ss.calls() if t["callee"].get("method") == "serialize_entry"]
@@ -395,19 +427,19 @@ def r2(ck, F):
             if "serialize_entry" not in ms:
                 probs.append("a path writes no entry (not even the span's name)")
         if has_parse and ent and n_ok and not probs:
-            ck.ok("C14.R2", "span objects are re-parsed from the stored fields and emitted through serialize_entry", fn=ss.path)
+            ck.ok(rid, "span objects are re-parsed from the stored fields and emitted through serialize_entry", fn=ss.path)
         else:
-            ck.bad("C14.R2", "span objects are re-parsed from the stored fields and emitted through serialize_entry", where(ss.raw["sp"]), "; ".join(sorted(set(probs))) or "calls %s" % names[:12], fn=ss.path)
+            ck.bad(rid, "span objects are re-parsed from the stored fields and emitted through serialize_entry", where(ss.raw["sp"]), "; ".join(sorted(set(probs))) or "calls %s" % names[:12], fn=ss.path)
         # ... and a span this subscriber holds no stored fields for (created before the subscriber saw it: a reload swapped
         # the JSON subscriber in while the span was open) is written without them, as the text formatters do -- not a panic
         key = "a span without stored fields is written, not a panic"
         musts = [(bb, t) for bb, t in ss.calls() if t["callee"].get("method") in ("expect", "unwrap") and "Option" in str(t["callee"].get("path"))
                  and ss.origin(t["argv"][0])[0] == "call" and str(ss.origin(t["argv"][0])[2]["callee"].get("path", "")).endswith("Extensions::<'a>::get")]
         if musts:
-            ck.bad("C14.R2", key, where(musts[0][1]["sp"]), "SerializableSpan::serialize %ss the span's FormattedFields extension: every record emitted inside a span that was opened "
+            ck.bad(rid, key, where(musts[0][1]["sp"]), "SerializableSpan::serialize %ss the span's FormattedFields extension: every record emitted inside a span that was opened "
                    "before this subscriber was installed (reload, None -> Some) panics in the formatter and is lost" % musts[0][1]["callee"].get("method"), fn=ss.path)
         else:
-            ck.ok("C14.R2", key, fn=ss.path)
+            ck.ok(rid, key, fn=ss.path)
 
 
 def r3(ck, F):
